@@ -82,4 +82,23 @@ theorem mallocLen_refines [DecidableEq α] (cfg : Cfg) {b : LB α} {q : Q α} (h
       Matches r (specStep q .mallocLen).2 :=
   ⟨b, _, rfl, hR, by simp [specStep, Matches, hR.mlen]⟩
 
+/-- `NewLinkBuffer(size)` represents the empty queue -/
+theorem R_newLB (cfg : Cfg) (size : Nat) : R (newLB cfg size : LB α) {} := by
+  have hnode : ∀ nd : Node α, nd = newNode cfg size →
+      nd.buf = [] ∧ nd.off = 0 ∧ nd.pend = [] ∧ nd.malloc = 0 := by
+    intro nd h; subst h; unfold newNode; split <;> simp
+  obtain ⟨n1, n2, n3, n4⟩ := hnode _ rfl
+  refine ⟨?_, rfl, rfl, ?_, ?_, by simp⟩
+  · simp [newLB, LB.abs, Node.abs, Node.readable, n1, n3]
+  · intro _
+    refine ⟨Nat.le_refl _, by simp [newLB], ?_, by simp [newLB], by simp⟩
+    intro i nd hi
+    simp only [newLB] at hi
+    cases i with
+    | zero =>
+      simp at hi; subst hi
+      simp [n1, n2, n3, n4]
+    | succ i => simp at hi
+  · intro _ c cp h; simp [newLB] at h
+
 end Netpoll.Buf
